@@ -118,6 +118,24 @@ class Run:
             evs.append((type(e).__name__, s, d, bool(e.is_synthetic)))
         return applied, evs
 
+    def maps(self):
+        """canonical rendering of `Inotify._wd_for_path` / `_path_for_wd` (white-box, read under the instance's lock):
+        the same form as the Lean driver's `showMaps`"""
+        for em in list(self.obs.emitters):
+            buf = getattr(em, "_inotify", None)
+            ino = getattr(buf, "_inotify", None) if buf is not None else None
+            if ino is None:
+                continue
+            with ino._lock:
+                wfp = dict(ino._wd_for_path)
+                pfw = dict(ino._path_for_wd)
+            rel = lambda b: self.uni.rel(os.fsdecode(b))  # noqa: E731
+            w = sorted(rel(k) for k in wfp)
+            x = sorted(rel(k) + ">" + (rel(pfw[v]) if v in pfw else "?") for k, v in wfp.items())
+            pp = sorted(rel(v) for v in pfw.values())
+            return "W:[" + ",".join(w) + "]|X:[" + ",".join(x) + "]|P:[" + ",".join(pp) + "]"
+        return "-"
+
     def reader_lock(self):
         """the lock of the Inotify instance behind the (only) emitter: while we hold it the reader cannot process
         what it reads - the reader lags behind the operations by exactly the burst"""
@@ -171,6 +189,10 @@ def run_history(init_ops, ops, recursive=True, full=False, as_bytes=False, probe
         initial_tree = r.uni.tree("W")
         r.start()
         applied, per_op = [], []
+        maps = []
+        if probes is not None:
+            r.reader_lock()          # wait for the emitter to come up
+            maps.append(r.maps())
         timeout = False
         for i_op, op in enumerate(ops):
             if split is not None:
@@ -188,10 +210,12 @@ def run_history(init_ops, ops, recursive=True, full=False, as_bytes=False, probe
             if ok:
                 applied.append(r.last_op)
                 per_op.append(evs)
+                maps.append(r.maps() if r.root_exists() else "-")
             elif evs:
                 # a refused operation must not produce events; keep them visible
                 applied.append(r.last_op)
                 per_op.append(evs)
+                maps.append(r.maps() if r.root_exists() else "-")
         tree = r.uni.tree("W") if r.root_exists() else {}
         probe_results = []
         if probes and r.root_exists() and not timeout:
@@ -207,7 +231,7 @@ def run_history(init_ops, ops, recursive=True, full=False, as_bytes=False, probe
         tree_s = "[" + ",".join(sorted(p + ("/" if k == "d" else "") for p, k in tree.items() if "__probe" not in p)) + "]"
         stopped = int(bool(r.obs.emitters) and not any(e.is_alive() for e in r.obs.emitters)) if r.started else 0
         line = " ; ".join(",".join(canon_events(e)) for e in per_op) + f" | tree={tree_s}"
-        return {"line": line, "init": init_applied, "applied": applied, "per_op": per_op, "tree": tree,
+        return {"line": line, "init": init_applied, "applied": applied, "per_op": per_op, "tree": tree, "maps": maps,
                 "initial_tree": initial_tree, "thread_errors": list(r.thread_errors), "raw": raw, "timeout": timeout,
                 "probes": probe_results, "root_type": type(r.root_arg).__name__, "emitter_stopped": stopped,
                 "root_gone": not r.root_exists()}
@@ -401,6 +425,11 @@ FIXED = [
      [("rename", "W/a", "W/b"), ("rename", "W/d", "W/dd"), ("rename", "W/b", "O/b"), ("create", "O/a"), ("rename", "O/a", "W/dd/a")]),
     ([], [("mkdir", "W/d"), ("rename", "W/d", "W/dd"), ("create", "W/dd/a"), ("mkdir", "W/dd/d"), ("rename", "W/dd/d", "W/d"),
           ("create", "W/d/b")]),
+    # a directory renamed onto an empty one (the replaced watch's IN_IGNORED must not disturb the survivor's map entry),
+    # then moved out of the tree, then changed outside, then its name re-used
+    ([("mkdir", "W/a"), ("mkdir", "W/b"), ("create", "W/a/x")],
+     [("rename", "W/a", "W/b"), ("rename", "W/b", "O/b"), ("create", "O/b/y"), ("unlink", "O/b/x"), ("mkdir", "W/b"),
+      ("create", "W/b/x")]),
 ]
 
 
